@@ -150,24 +150,41 @@ def grep_escape_hatches() -> list[str]:
   return hits
 
 
+def _qkv_imports(mod: str, seen: set):
+  """transitive closure of the `import QKV.…` lines of a module of this project"""
+  if mod in seen:
+    return
+  seen.add(mod)
+  path = os.path.join(LEAN_DIR, *mod.split(".")) + ".lean"
+  try:
+    with open(path) as fh:
+      for line in fh:
+        m = re.match(r"\s*(?:public\s+)?import\s+(QKV\.[A-Za-z0-9_.]+)", line)
+        if m:
+          _qkv_imports(m.group(1), seen)
+  except OSError:
+    pass
+
+
 def leanchecker(prop: str, modules=None) -> dict:
-  """thorough tier: independent re-check of the compiled proofs (all QKV modules the property
-  theorems depend on) with the toolchain's `leanchecker`"""
-  mods = list(modules or ["QKV.Props." + prop])
-  for sub in ("Lemmas", "Model"):
-    d = os.path.join(LEAN_DIR, "QKV", sub)
-    if os.path.isdir(d):
-      mods += ["QKV.%s.%s" % (sub, f[:-5]) for f in sorted(os.listdir(d)) if f.endswith(".lean")]
-  # only modules that are built (dependencies of this property's Props module were built by audit)
-  built = []
-  for m in mods:
-    path = os.path.join(LEAN_DIR, ".lake", "build", "lib", "lean", *m.split(".")) + ".olean"
-    if os.path.exists(path):
-      built.append(m)
+  """thorough tier: independent re-check of the compiled proofs with the toolchain's `leanchecker` —
+  the property's Props module(s) and every QKV module they (transitively) import, ONE module per
+  leanchecker process (a single call over all modules needs > 50 GB; one module needs ~3 GB)."""
+  seen: set = set()
+  for m in (modules or ["QKV.Props." + prop]):
+    _qkv_imports(m, seen)
+  mods = sorted(seen)
   t0 = time.time()
-  p = subprocess.run(["lake", "env", "leanchecker"] + built, cwd=LEAN_DIR, capture_output=True, text=True)
-  return {"ok": p.returncode == 0, "modules": len(built), "wall_s": round(time.time() - t0, 1),
-          "log": (p.stdout + p.stderr)[-1500:] if p.returncode != 0 else ""}
+  bad, log = [], ""
+  for m in mods:
+    p = subprocess.run(["lake", "env", "leanchecker", m], cwd=LEAN_DIR, capture_output=True, text=True)
+    if p.returncode < 0:
+      raise InfraError("leanchecker on %s was killed by signal %d" % (m, -p.returncode))
+    if p.returncode != 0:
+      bad.append(m)
+      log += "%s: %s\n" % (m, (p.stdout + p.stderr)[-800:])
+  return {"ok": not bad, "modules": len(mods), "checked": mods, "rejected": bad,
+          "wall_s": round(time.time() - t0, 1), "log": log[-3000:]}
 
 
 def audit(prop: str, modules=None, prefixes=None) -> dict:
